@@ -202,13 +202,24 @@ theorem Val.eq_of_fields {v w : Val} (hn : v.name = w.name) :
     ({ v with const := w.const, shape := w.shape, type := w.type } : Val) = w := by
   cases v; cases w; simp_all
 
-theorem G.ext' {a b : G} (h1 : a.val = b.val) (h2 : a.inits = b.inits) (h3 : a.inputs = b.inputs) :
-    a = b := by
+theorem G.ext' {a b : G} (h1 : a.val = b.val) (h2 : a.inits = b.inits) (h3 : a.inputs = b.inputs)
+    (h4 : a.tname = b.tname) : a = b := by
   cases a; cases b; simp_all
 
-/-- The `finally` block undoes everything the strip loop can have done, wherever it stopped. -/
+theorem foldl_stepV_tname : ∀ (l : List (Nat × Option Tensor × Option Nat × Option Nat)) (g' : G),
+    (l.foldl stepV g').tname = g'.tname
+  | [], _ => rfl
+  | p :: l, g' => by simp only [List.foldl_cons]; exact (foldl_stepV_tname l _).trans rfl
+
+theorem foldl_stepK_tname : ∀ (l : List (Nat × Option Tensor × Option Nat × Option Nat)) (g' : G),
+    (l.foldl stepK g').tname = g'.tname
+  | [], _ => rfl
+  | p :: l, g' => by simp only [List.foldl_cons]; exact (foldl_stepK_tname l _).trans rfl
+
+/-- The `finally` block undoes everything the strip loop can have done, wherever it stopped;
+    tensor names are not touched by it. -/
 theorem restore_of_frame {g g' : G} (hwf : WF g) (hf : Frame (g.inits.map (·.2)) g g') :
-    restore ((g.inits.map (·.2)).map (fieldsOf g)) g.inputs g' = g := by
+    restore ((g.inits.map (·.2)).map (fieldsOf g)) g.inputs g' = { g with tname := g'.tname } := by
   have V := foldl_stepV g (g.inits.map (·.2)) g'
   have hval : (((g.inits.map (·.2)).map (fieldsOf g)).foldl stepV g').val = g.val := by
     funext j
@@ -228,6 +239,114 @@ theorem restore_of_frame {g g' : G} (hwf : WF g) (hf : Frame (g.inits.map (·.2)
     rw [hval]
     simpa using hinits
   · rfl
+  · show (List.foldl stepK _ _).tname = g'.tname
+    rw [foldl_stepK_tname]
+    exact foldl_stepV_tname _ g'
+
+/-! ### what serialization can do to tensor names -/
+
+/-- `g'` (somewhere in the strip loop) has the tensor names of `g`, only initializers of `g`, and
+    only tensors that `g` has at the same value -/
+structure Keep (g g' : G) : Prop where
+  tname : g'.tname = g.tname
+  inits : ∀ p ∈ g'.inits, p ∈ g.inits
+  const : ∀ i t, (g'.val i).const = some t → (g.val i).const = some t
+
+theorem Keep.refl (g : G) : Keep g g := ⟨rfl, fun _ h => h, fun _ _ h => h⟩
+
+theorem Keep.apply {g g' : G} (h : Keep g g') (p : Prim) : Keep g (p.apply g') := by
+  cases p with
+  | setShape v s =>
+    refine ⟨h.tname, h.inits, fun i t ht => h.const i t ?_⟩
+    simp only [Prim.apply, setVal] at ht
+    split at ht
+    · next e => subst e; exact ht
+    · exact ht
+  | setDtype v d =>
+    refine ⟨h.tname, h.inits, fun i t ht => h.const i t ?_⟩
+    simp only [Prim.apply, setVal] at ht
+    split at ht
+    · next e => subst e; exact ht
+    · exact ht
+  | appendInput v => exact ⟨h.tname, h.inits, h.const⟩
+  | clearConst v =>
+    refine ⟨h.tname, h.inits, fun i t ht => ?_⟩
+    simp only [Prim.apply, setVal] at ht
+    split at ht
+    · simp at ht
+    · exact h.const i t ht
+  | popInit k =>
+    refine ⟨h.tname, fun p hp => h.inits p ?_, h.const⟩
+    simp only [Prim.apply, popKey] at hp
+    exact (List.mem_filter.1 hp).1
+
+theorem Keep.doPrim {g : G} {s : St} (f : Option Fault) (p : Prim) (h : Keep g s.g) :
+    Keep g (doPrim f p s).g := by
+  unfold CApi.doPrim
+  split
+  · exact h
+  · split
+    · split
+      · split
+        · exact h.apply p
+        · exact h
+      · exact h.apply p
+    · exact h.apply p
+
+theorem Keep.stripOne {g : G} {s : St} (f : Option Fault) (i : Nat) (h : Keep g s.g) :
+    Keep g (stripOne f i s).g := by
+  have h1 : Keep g (stageShape f i s).g := by
+    unfold CApi.stageShape; repeat' split
+    all_goals first | exact h | exact Keep.doPrim f _ h
+  have h2 : Keep g (stageDtype f i (stageShape f i s)).g := by
+    unfold CApi.stageDtype; repeat' split
+    all_goals first | exact h1 | exact Keep.doPrim f _ h1
+  have h3 : Keep g (stageInput f i (stageDtype f i (stageShape f i s))).g := by
+    unfold CApi.stageInput; repeat' split
+    all_goals first | exact h2 | exact Keep.doPrim f _ h2
+  unfold CApi.stripOne CApi.stagePop
+  repeat' split
+  all_goals first
+    | exact h3
+    | exact Keep.doPrim f _ h3
+    | exact Keep.doPrim f _ (Keep.doPrim f _ h3)
+
+theorem Keep.strip {g : G} (f : Option Fault) : ∀ (l : List Nat) (s : St),
+    Keep g s.g → Keep g (strip f l s).g
+  | [], _, h => h
+  | i :: l, s, h => by
+    simp only [CApi.strip, List.foldl_cons]
+    exact Keep.strip f l _ (Keep.stripOne f i h)
+
+/-- `renamePrefix` changes nothing but tensor names, and a name only to the name of an initializer
+    value that carries that tensor -/
+theorem renamePrefix_spec : ∀ (n : Nat) (l : List (String × Nat)) (g : G),
+    (renamePrefix n l g).val = g.val ∧ (renamePrefix n l g).inits = g.inits ∧
+    (renamePrefix n l g).inputs = g.inputs ∧
+    ∀ j, (renamePrefix n l g).tname j = g.tname j ∨
+      ∃ p ∈ l, ∃ t, (g.val p.2).const = some t ∧ t.id = j ∧
+        (renamePrefix n l g).tname j = (g.val p.2).name
+  | 0, l, g => by simp [renamePrefix]
+  | n + 1, [], g => by simp [renamePrefix]
+  | n + 1, (k, i) :: l, g => by
+    simp only [renamePrefix]
+    split
+    · next hc =>
+      have ih := renamePrefix_spec (n + 1) l g
+      refine ⟨ih.1, ih.2.1, ih.2.2.1, fun j => ?_⟩
+      rcases ih.2.2.2 j with h | ⟨p, hp, t, h1, h2, h3⟩
+      · exact Or.inl h
+      · exact Or.inr ⟨p, List.mem_cons_of_mem _ hp, t, h1, h2, h3⟩
+    · next t hc =>
+      have ih := renamePrefix_spec n l
+        { g with tname := fun j => if j = t.id then (g.val i).name else g.tname j }
+      refine ⟨ih.1, ih.2.1, ih.2.2.1, fun j => ?_⟩
+      rcases ih.2.2.2 j with h | ⟨p, hp, t', h1, h2, h3⟩
+      · by_cases hj : j = t.id
+        · refine Or.inr ⟨(k, i), List.mem_cons_self, t, hc, hj.symm, ?_⟩
+          rw [h]; simp [hj]
+        · left; rw [h]; simp [hj]
+      · exact Or.inr ⟨p, List.mem_cons_of_mem _ hp, t', h1, h2, h3⟩
 
 /-! ### without an injected fault the strip loop does not raise -/
 
